@@ -131,7 +131,9 @@ inline History gen_code_case(const PropSpec& ps, Chooser& ch) {
   History h;
   GenOpts small; small.max_k_ldpc = 40; small.max_n_ldpc = 80; small.max_n_rs = 40; small.big_L = false;
   uint32_t npre = ch.next() % 4;
+  if (g_force == SC_C05VERB && npre == 0) npre = 1;
   for (uint32_t i = 0; i < npre; i++) { h.scripts.push_back(ch.coin(1, 2) ? gen_encoder_script(ch, small) : gen_decoder_script(ch, small)); if (ch.coin(1, 3)) h.scripts.back().verb = ch.pick<uint32_t>({2, 1, 2}); }
+  if (g_force == SC_C05VERB) h.scripts[0].verb = 2;
   Config c = gen_config(ch, ps.go);
   // grid-flavoured k values now and then
   if (ch.coin(1, 4)) {
@@ -142,7 +144,8 @@ inline History gen_code_case(const PropSpec& ps, Chooser& ch) {
   c.payload = PAY_IDENTITY;
   // now and then a block of tens of thousands of symbols: deviations of the PRNG scaling of the order of
   // 2^-31 per draw only show in matrices built from ~10^5 draws (one-byte symbols keep this cheap)
-  bool big = ch.coin(1, 24);
+  bool big = ch.coin(1, 24) || g_force == SC_C05BIG;
+  if (g_force == SC_C05VERB) big = false;
   if (big) {
     uint32_t kmax = ps.go.max_k_ldpc >= 3000 ? 40000 : 24000;
     c.k = ch.range(4000, kmax);
@@ -169,11 +172,12 @@ inline History gen_code_case(const PropSpec& ps, Chooser& ch) {
   }
   // the pair itself: one after the other | the first makes progress, stays open while the second lives | first
   // complete but not released | generated interleaving (the code of a session must not depend on a live peer's state)
-  uint32_t pa = npre, pb = npre + 1, pat = big ? 0 : ch.next() % 5;
+  uint32_t pa = npre, pb = npre + 1, pat = big ? 0 : ch.next() % 6;
   size_t sa = h.scripts[pa].steps.size(), sb = h.scripts[pb].steps.size();
   if (pat == 1 || pat == 4) { size_t part = 1 + (sa > 1 ? ch.next() % sa : 0); for (size_t j = 0; j < 1 + part; j++) h.inter.push_back(pa); for (size_t j = 0; j < sb + 2; j++) h.inter.push_back(pb); }
   else if (pat == 2) { uint64_t x = ch.seed64(); for (size_t j = 0; j < 2 * (sa + sb + 4); j++) h.inter.push_back(splitmix(x) & 1 ? pa : pb); }
   else if (pat == 3) { for (size_t j = 0; j < 1 + sa; j++) h.inter.push_back(pa); for (size_t j = 0; j < sb + 2; j++) h.inter.push_back(pb); }
+  else if (pat == 5) { for (size_t j = 0; j < sa + 2; j++) h.inter.push_back(pa); }   // the first one's whole life (released) before the second is created
   return h;
 }
 
@@ -183,11 +187,13 @@ inline History gen_lastnull_case(const PropSpec& ps, Chooser& ch) {
   Config c = gen_config(ch, ps.go);
   if (c.payload == PAY_ZERO) c.payload = PAY_RANDOM;
   // boundary class: low-rate codes where the number of extra entries (about 2(n-k) - N1 k) is a multiple of 256
-  if (ch.next() % 12 == 11) {
+  uint32_t lnc = ch.next() % 12, lnd = ch.next() % 200;
+  if (g_force == SC_LN256) lnc = 11; else if (g_force == SC_LN65536) { lnc = 0; lnd = 199; } else if (g_force != SC_NONE) { lnc = 0; lnd = 0; }
+  if (lnc == 11) {
     c.N1 = ch.pick<uint32_t>({4, 6, 8, 10}); c.k = ch.range(1, 40); uint32_t m256 = ch.range(1, 2);
     c.r = (256 * m256 + c.N1 * c.k) / 2 + ch.pick<uint32_t>({0, 0, 0, 1});
     c.L = ch.range(1, 9);
-  } else if (ch.next() % 200 == 199) {
+  } else if (lnd == 199) {
     // the same boundary one counter width up: 2(n-k) - N1 k = 65536 (blocks of ~33 000 one-byte symbols)
     c.N1 = ch.pick<uint32_t>({4, 6, 8, 10}); c.k = ch.range(1, 30);
     c.r = 32768 + c.N1 * c.k / 2 + ch.pick<uint32_t>({0, 0, 0, 1});
@@ -208,7 +214,10 @@ inline History gen_lastnull_case(const PropSpec& ps, Chooser& ch) {
     for (uint32_t x : rec) { if (x == n - 1) continue; Step s; s.op = OP_NEW; s.esi = x; d.steps.push_back(s); if (every && ++cnt % every == 0) push_query(d, 1); }
   }
   if (ch.coin(2, 3)) { Step f; f.op = OP_FINISH; d.steps.push_back(f); }
-  h.scripts.push_back(e); h.scripts.push_back(d);
+  // lifetimes: side by side (round robin) | encoder's whole life first | decoder's whole life first | first one finished but still open
+  uint32_t life = ch.next() % 5;
+  if (life == 2) { h.scripts.push_back(d); h.scripts.push_back(e); } else { h.scripts.push_back(e); h.scripts.push_back(d); }
+  if (life >= 1 && life <= 3) { size_t cnt = h.scripts[0].steps.size() + (life == 3 ? 1 : 2); for (size_t j = 0; j < cnt; j++) h.inter.push_back(0); }
   return h;
 }
 
@@ -397,7 +406,13 @@ inline History p2d_history(uint32_t k, uint32_t r, uint64_t mask, int api, int o
 inline History gen_deep_chain(Chooser& ch, const GenOpts& o, bool with_finish) {
   History h; Script s;
   Config& c = s.cfg;
-  c.codec = CODEC_LDPC; c.N1 = ch.range(3, 5); c.k = ch.range(5500, 7000); c.r = ch.range(5500, 7000); c.seed = 1 + ch.next() % 0x7FFFFFFEu;
+  // unroll depth classes: around 4096 (blocks of ~12 000 symbols), around 8192 and around 16384 (blocks of ~25 000 / ~40 000)
+  uint32_t dclass = ch.pick<uint32_t>({0, 0, 1, 2});
+  if (g_force == SC_DEEP0) dclass = 0; else if (g_force == SC_DEEP1) dclass = 1; else if (g_force == SC_DEEP2) dclass = 2;
+  c.codec = CODEC_LDPC; c.N1 = ch.range(3, 5); c.seed = 1 + ch.next() % 0x7FFFFFFEu;
+  if (dclass == 0) { c.k = ch.range(5500, 7000); c.r = ch.range(5500, 7000); }
+  else if (dclass == 1) { c.k = ch.range(9000, 12000); c.r = ch.range(10500, 12500); }
+  else { c.k = ch.range(18000, 22000); c.r = ch.range(19000, 24000); }
   c.L = 1; c.payload = PAY_RANDOM; c.pseed = ch.next();
   s.role = ROLE_DEC; s.align = ch.next();
   bool cb_after;
@@ -410,6 +425,8 @@ inline History gen_deep_chain(Chooser& ch, const GenOpts& o, bool with_finish) {
   // the unroll starts at first_eq[a] and reaches s after D = first_eq[s] - first_eq[a] + 1 nested rebuilds;
   // D is drawn around 4096 (a recursion bound someone might pick) half of the time, else anywhere above 3000
   uint32_t D = ch.coin(1, 2) ? 4090 + ch.next() % 12 : ch.range(3000, 5400);
+  if (dclass == 1) D = ch.coin(1, 2) ? 8186 + ch.next() % 12 : ch.range(7000, 10000);
+  if (dclass == 2) D = ch.coin(1, 2) ? 16378 + ch.next() % 12 : ch.range(14000, 18500);
   int a = -1, sidx = -1;
   for (uint32_t x = 0; x < c.k && a < 0; x++) {
     if (first_eq[x] == 0xFFFFFFFFu || first_eq[x] + 1 < D) continue;
@@ -462,20 +479,89 @@ inline History gen_encoder_pair(Chooser& ch, const GenOpts& o) {
   return h;
 }
 
+// Retry after a failure: sessions of one code, one after the other (each released before the next is created). The first
+// is given a received set that cannot be decoded (finish fails); the next ones get a decodable set with the SAME numbers of
+// source and repair symbols, received and after peeling (found on the reference code for LDPC: ML pass needed and
+// sufficient). What a failed block leaves behind must not reach the next block.
+inline History gen_retry(Chooser& ch, const GenOpts& o) {
+  History h; GenOpts oo = o; oo.big_L = false; oo.heavy = false;
+  oo.max_k_ldpc = std::min<uint32_t>(oo.max_k_ldpc, 14); oo.max_n_ldpc = std::min<uint32_t>(oo.max_n_ldpc, 26); oo.max_n_rs = std::min<uint32_t>(oo.max_n_rs, 20);
+  Config c = gen_config(ch, oo);
+  c.L = 1 + c.L % 24; if (c.payload == PAY_IDENTITY) c.payload = PAY_RANDOM;
+  uint32_t n = c.k + c.r;
+  std::vector<uint32_t> bad, good;
+  if (c.codec == CODEC_LDPC) {
+    if (c.N1 % 2 == 0 || c.N1 > 5) c.N1 = 3; if (c.r < c.N1) c.r = c.N1; if (c.k < 3) c.k = 3 + c.k; if (c.k + c.r > 26) { c.k = 12; c.r = 10; }
+    n = c.k + c.r;
+    Config c1 = c; c1.L = 1; CodeRef cr; cr.build(c1);
+    uint64_t x = ch.seed64();
+    struct Cand { std::vector<uint32_t> set; };
+    std::map<uint64_t, std::pair<std::vector<uint32_t>, std::vector<uint32_t>>> buckets;   // key -> (undecodable set, ML-decodable set)
+    for (int t = 0; t < 400 && (bad.empty() || good.empty()); t++) {
+      uint32_t nrecv = c.k + (uint32_t)(splitmix(x) % 3);
+      if (nrecv > n) nrecv = n;
+      std::vector<uint32_t> all(n); std::iota(all.begin(), all.end(), 0); seeded_shuffle(all, splitmix(x));
+      std::vector<uint32_t> set(all.begin(), all.begin() + nrecv); std::sort(set.begin(), set.end());
+      std::vector<char> known(n, 0); uint32_t ns = 0; for (uint32_t e : set) { known[e] = 1; if (e < c.k) ns++; }
+      ref::Determined d = ref::determinability(cr.eqs, known);
+      bool all_det = true; for (uint32_t e = 0; e < c.k; e++) if (!d.det[e]) all_det = false;
+      std::vector<char> cl = known; ref::peel_closure(cr.eqs, cl);
+      uint32_t cs = 0, cp = 0; for (uint32_t e = 0; e < n; e++) if (cl[e]) { if (e < c.k) cs++; else cp++; }
+      if (cs == c.k) continue;                    // peeling alone finishes: finish has nothing to do
+      uint64_t key = ((uint64_t)ns << 48) | ((uint64_t)(nrecv - ns) << 32) | ((uint64_t)cs << 16) | cp;
+      auto& b = buckets[key];
+      if (!all_det && b.first.empty()) b.first = set;
+      if (all_det && b.second.empty()) b.second = set;
+      if (!b.first.empty() && !b.second.empty()) { bad = b.first; good = b.second; }
+    }
+    if (bad.empty()) return gen_multi(ch, o);
+  } else {
+    // Reed-Solomon: k-1 symbols cannot be decoded, k can
+    std::vector<uint32_t> all(n); std::iota(all.begin(), all.end(), 0); seeded_shuffle(all, ch.seed64());
+    good.assign(all.begin(), all.begin() + c.k); bad.assign(all.begin() + 1, all.begin() + c.k);
+    bool has_rep = false; for (uint32_t e : good) if (e >= c.k) has_rep = true;
+    if (!has_rep) good[0] = c.k + good[0] % c.r;
+    std::sort(good.begin(), good.end()); std::sort(bad.begin(), bad.end());
+  }
+  auto mk = [&](const std::vector<uint32_t>& set, uint64_t ps) {
+    Script s; s.cfg = c; s.cfg.pseed = ps; s.role = ROLE_DEC; s.cbmode = 1; s.align = ps;
+    if (ps % 3 == 0) { Step st; st.op = OP_SETCB; st.flag = 1; s.steps.push_back(st); }
+    Step sp; sp.op = OP_SETPARAMS; s.steps.push_back(sp);
+    if (ps % 2) { Step a; a.op = OP_AVAIL; a.set = set; s.steps.push_back(a); }
+    else { std::vector<uint32_t> ord = set; seeded_shuffle(ord, ps); for (uint32_t e : ord) { Step st; st.op = OP_NEW; st.esi = e; s.steps.push_back(st); } }
+    Step f; f.op = OP_FINISH; s.steps.push_back(f);
+    push_query(s);
+    return s;
+  };
+  uint32_t shape = ch.next() % 3;   // bad good | bad good good | good bad good
+  uint64_t p0 = ch.next();
+  if (shape == 2) h.scripts.push_back(mk(good, p0 + 7));
+  h.scripts.push_back(mk(bad, p0));
+  h.scripts.push_back(mk(good, p0 + 1));
+  if (shape == 1) h.scripts.push_back(mk(good, p0 + 2));
+  for (size_t j = 0; j + 1 < h.scripts.size(); j++) for (size_t i = 0; i < h.scripts[j].steps.size() + 2; i++) h.inter.push_back((uint32_t)j);
+  return h;
+}
+inline History gen_multi_x(Chooser& ch, const GenOpts& o) { bool r = ch.next() % 16 == 15; return (g_force == SC_RETRY || (r && g_force == SC_NONE)) ? gen_retry(ch, o) : gen_multi(ch, o); }
+inline bool force_is_multi() { return g_force == SC_NOISY || g_force == SC_CROWD || g_force == SC_NESTED || g_force == SC_RETRY || g_force == SC_MULTI || g_force == SC_SIBLING; }
+inline bool force_is_deep() { return g_force == SC_DEEP0 || g_force == SC_DEEP1 || g_force == SC_DEEP2; }
+
 // ---------------------------------------------------------------------------------------------
 inline History generate(const PropSpec& ps, Chooser& ch) {
   switch (ps.kind) {
-    case 1: return (ch.next() % 6 == 5) ? gen_encoder_pair(ch, ps.go) : gen_single_encoder(ch, ps.go);
+    case 1: { uint32_t w = ch.next() % 48; if (g_force == SC_ENCPAIR) w = 5; else if (g_force == SC_ENCCROWD) w = 47; else if (g_force != SC_NONE) w = 0; if (w == 47 && ps.go.heavy) { GenOpts g = ps.go; g.cb_mode = 2; History h = gen_crowd(ch, g, 1); return h; } return (w % 6 == 5) ? gen_encoder_pair(ch, ps.go) : gen_single_encoder(ch, ps.go); }
     case 2: {
       // memory properties: mostly single sessions, one case in four several interleaved sessions (shared
       // or cached state between sessions is where use-after-free and double free hide)
       uint32_t w = ch.next() % 12;
-      if (w >= 9) { GenOpts g = ps.go; g.max_k_ldpc = std::min<uint32_t>(g.max_k_ldpc, 40); g.max_n_ldpc = std::min<uint32_t>(g.max_n_ldpc, 80); g.max_n_rs = 40; return gen_multi(ch, g); }
-      if (ps.go.heavy && (ps.go.codecs & GC_LDPC) && ch.next() % 160 == 159) return gen_deep_chain(ch, ps.go, false);
+      if (force_is_multi()) w = 9; else if (g_force != SC_NONE && w >= 9) w = 0;
+      if (force_is_deep() && (ps.go.codecs & GC_LDPC)) return gen_deep_chain(ch, ps.go, false);
+      if (w >= 9) { GenOpts g = ps.go; g.max_k_ldpc = std::min<uint32_t>(g.max_k_ldpc, 40); g.max_n_ldpc = std::min<uint32_t>(g.max_n_ldpc, 80); g.max_n_rs = 40; return gen_multi_x(ch, g); }
+      if (ps.go.heavy && (ps.go.codecs & GC_LDPC) && ch.next() % 160 == 159 && g_force == SC_NONE) return gen_deep_chain(ch, ps.go, false);
       return w >= 6 ? gen_single_encoder(ch, ps.go) : gen_single_decoder(ch, ps.go);
     }
     case 3: {
-      if (ch.next() % 10 == 9) {
+      if ((ch.next() % 10 == 9 && g_force == SC_NONE) || g_force == SC_TWIN) {
         // a decoder that has made progress stays open while a twin (same parameters, encoder or decoder) lives its whole life
         GenOpts oo = ps.go; oo.big_L = false;
         History h; Script a = gen_decoder_script(ch, oo);
@@ -486,7 +572,7 @@ inline History generate(const PropSpec& ps, Chooser& ch) {
         for (size_t j = 0; j < b.steps.size() + 2; j++) h.inter.push_back(1);
         return h;
       }
-      History h = gen_multi(ch, ps.go);
+      History h = gen_multi_x(ch, ps.go);
       if (ch.next() % 6 == 5) {   // a 2D-parity neighbour (another codec sharing the IT/ML decoder code)
         static const uint32_t shapes[][2] = {{4, 4}, {6, 5}, {9, 6}, {8, 6}, {12, 7}, {16, 8}, {3, 4}, {2, 3}, {10, 7}};
         uint32_t w = ch.next() % 9; uint32_t k = shapes[w][0], r = shapes[w][1];
@@ -504,10 +590,10 @@ inline History generate(const PropSpec& ps, Chooser& ch) {
     case 6: return gen_param_case(ps, ch);
     case 7: { uint32_t k = ch.range(1, 16), r = ch.range(2, 10); uint64_t m = ch.seed64(); return p2d_history(k, r, m & ((1ull << (k + r)) - 1), ch.next() % 2, ch.next() % 4, ch.seed64(), ch.coin(2, 3), ch.next() % 2, ch.next(), ch.range(1, 40), -1); }
     default:
-      if (ps.go.heavy && (ps.go.codecs & GC_LDPC) && ps.go.api_mode != 2 && ch.next() % 160 == 159) return gen_deep_chain(ch, ps.go, ps.go.finish_mode == 1);
+      if ((ps.go.codecs & GC_LDPC) && ps.go.api_mode != 2 && ((ps.go.heavy && ch.next() % 160 == 159 && g_force == SC_NONE) || force_is_deep())) return gen_deep_chain(ch, ps.go, ps.go.finish_mode == 1);
       // one case in eight: the session under test has neighbours (caches and shared contexts keyed on part of
       // the parameters make a session's statuses and data depend on who else is alive)
-      if (ch.next() % 8 == 7) { GenOpts g = ps.go; g.max_k_ldpc = std::min<uint32_t>(g.max_k_ldpc, 40); g.max_n_ldpc = std::min<uint32_t>(g.max_n_ldpc, 80); g.max_n_rs = std::min<uint32_t>(g.max_n_rs, 60); return gen_multi(ch, g); }
+      if ((ch.next() % 8 == 7 && g_force == SC_NONE) || force_is_multi()) { GenOpts g = ps.go; g.max_k_ldpc = std::min<uint32_t>(g.max_k_ldpc, 40); g.max_n_ldpc = std::min<uint32_t>(g.max_n_ldpc, 80); g.max_n_rs = std::min<uint32_t>(g.max_n_rs, 60); return gen_multi_x(ch, g); }
       return gen_single_decoder(ch, ps.go);
   }
 }
@@ -631,7 +717,11 @@ inline History p2d_history(uint32_t k, uint32_t r, uint64_t mask, int api, int o
   History h; Script s;
   s.cfg.codec = CODEC_P2D; s.cfg.k = k; s.cfg.r = r; s.cfg.L = L; s.cfg.payload = payload; s.cfg.pseed = pseed;
   s.role = ((mask ^ pseed) % 5 == 0) ? ROLE_BOTH : ROLE_DEC; s.cbmode = 1;
-  Step sp; sp.op = OP_SETPARAMS; s.steps.push_back(sp);
+  // callbacks: none (most patterns) | source | source + repair | repair only; the repair callback returns a buffer or NULL
+  uint64_t cbh = mix2(mask * 31 + k, oseed ^ (uint64_t)r);
+  uint32_t cbk = (uint32_t)(cbh % 8);   // 0-3 none, 4 source, 5-6 both, 7 repair only
+  if (cbk >= 4) { Step st; st.op = OP_SETCB; st.flag = cbk == 4 ? 1 : cbk == 7 ? 2 : 3; s.cbmode = 1 + (int)((cbh >> 8) % 3); s.cbmask = cbh >> 16; s.repmode = (int)((cbh >> 12) & 1); if ((cbh >> 13) & 1) s.steps.push_back(st); Step sp; sp.op = OP_SETPARAMS; s.steps.push_back(sp); if (!((cbh >> 13) & 1)) s.steps.push_back(st); }
+  else { Step sp; sp.op = OP_SETPARAMS; s.steps.push_back(sp); }
   std::vector<uint32_t> rec;
   for (uint32_t e = 0; e < k + r; e++) if (mask & (1ull << e)) rec.push_back(e);
   if (order == 1) std::reverse(rec.begin(), rec.end());
@@ -648,7 +738,7 @@ inline History p2d_history(uint32_t k, uint32_t r, uint64_t mask, int api, int o
 inline History dec_history(const Config& c, uint64_t mask, int api, int order, uint64_t oseed, bool finish, int cb, bool query_every, int cut) {
   History h; Script s; s.cfg = c; s.role = ROLE_DEC; s.align = oseed;
   s.cbmode = cb ? cb : 1; s.cbmask = oseed * 0x9E3779B97F4A7C15ULL;
-  if (cb) { Step st; st.op = OP_SETCB; st.flag = 1; s.steps.push_back(st); }
+  if (cb) { Step st; st.op = OP_SETCB; st.flag = 1; if ((oseed ^ mask) % 4 == 3) { st.flag = 3; s.repmode = (int)(((oseed ^ mask) >> 2) & 1); } s.steps.push_back(st); }
   Step sp; sp.op = OP_SETPARAMS; s.steps.push_back(sp);
   std::vector<uint32_t> rec;
   for (uint32_t e = 0; e < c.k + c.r; e++) if (mask & (1ull << e)) rec.push_back(e);
@@ -715,21 +805,43 @@ inline void enumerate_small(const PropSpec& ps, const Tier& t, int worker, int n
     if (ps.go.codecs & GC_RSM8) lc.push_back(mk(CODEC_RSM, 8, 3, 2, 3, 1));
     if (ps.go.codecs & GC_RSM4) lc.push_back(mk(CODEC_RSM, 4, 3, 2, 3, 1));
     if (ps.go.codecs & GC_LDPC) { lc.push_back(mk(CODEC_LDPC, 8, 4, 4, 3, 1)); lc.push_back(mk(CODEC_LDPC, 8, 8, 4, 4, 1)); }   // odd and even N1 (the latter injects a zero symbol)
-    uint64_t swept = 0;
-    for (const Config& c0 : lc)
+    // a third LDPC entry walks the lengths through the ML pass: its received set is the first (by popcount, then value) that
+    // leaves iterative decoding stuck although the sources are determined, found on the reference code
+    uint64_t ml_mask = 0; size_t ml_entry = (size_t)-1;
+    if ((ps.go.codecs & GC_LDPC) && ps.go.finish_mode != 2) {
+      Config c = mk(CODEC_LDPC, 8, 5, 6, 3, 7); c.L = 1;
+      CodeRef cr; cr.build(c);
+      uint32_t n = c.k + c.r;
+      for (uint64_t m = (1ull << n) - 1; m > 0 && !ml_mask; m--) {
+        if ((uint32_t)__builtin_popcountll(m) < c.k) continue;
+        std::vector<char> known(n, 0); for (uint32_t e = 0; e < n; e++) if (m & (1ull << e)) known[e] = 1;
+        ref::Determined d = ref::determinability(cr.eqs, known);
+        bool all = true; for (uint32_t e = 0; e < c.k; e++) if (!d.det[e]) all = false;
+        if (!all) continue;
+        ref::peel_closure(cr.eqs, known);
+        bool peeled = true; for (uint32_t e = 0; e < c.k; e++) if (!known[e]) peeled = false;
+        if (!peeled) ml_mask = m;
+      }
+      if (ml_mask) { ml_entry = lc.size(); lc.push_back(c); }
+    }
+    uint64_t swept = 0, swept_ml = 0;
+    for (size_t ci = 0; ci < lc.size(); ci++)
       for (uint32_t L : Ls) {
+        const Config& c0 = lc[ci];
         if ((idx++ % (uint64_t)nworkers) != (uint64_t)worker) continue;
         Config c = c0; c.L = L; c.pseed = L;
         uint32_t n = c.k + c.r;
         // lose source 1 and the last repair; everything else arrives; finish
         uint64_t mask = ((1ull << n) - 1) & ~(1ull << 1) & ~(1ull << (n - 1));
+        if (ci == ml_entry) { mask = ml_mask; swept_ml++; }
         int api = (ps.go.api_mode == 2) ? 1 : (ps.go.api_mode == 1 ? 0 : (int)(L & 1));
         bool fin = ps.go.finish_mode != 2;
         int cb = ps.go.cb_mode == 1 ? 1 + (int)(L % 3) : (ps.go.cb_mode == 2 ? 0 : (int)(L % 4));
         if (!one(dec_history(c, mask, api, (int)(L % 3), mix2(seed, L), fin, cb, false, -1))) return;
         swept++;
       }
-    if (st_out) st_out->subspaces.push_back(std::string("symbol length sweep: ") + (t.thorough ? "every L in 1..65536" : "multiples of 512 +-1 up to 65536 and protocol sizes (1472, 8972, 9000, 12288, 65507, 65535)") + " on " + std::to_string(lc.size()) + " tiny codes with one source and one repair lost: complete");
+    if (st_out) st_out->subspaces.push_back(std::string("symbol length sweep: ") + (t.thorough ? "every L in 1..65536" : "multiples of 512 +-1 up to 65536 and protocol sizes (1472, 8972, 9000, 12288, 65507, 65535)") + " on " + std::to_string(lc.size()) + " tiny codes with one source and one repair lost" + (ml_entry != (size_t)-1 ? " (one LDPC code with a received set that needs the ML pass)" : "") + ": complete");
+    if (st_out) st_out->counters["L_sweep_cases_through_ML"] += swept_ml;
     // number of repair symbols (LDPC): every r = n-k in 3..8192 (quick) / 3..24999 (thorough) at rate 1/2 (k = r, N1 = 3: no extra
     // entries, every source in three equations). The lost set is a stopping set read off the reference code: the source s whose
     // equations x < y < z lie closest together, and the repairs p_x .. p_(z-1). Every equation x..z then keeps two unknowns, so
@@ -766,8 +878,46 @@ inline void enumerate_small(const PropSpec& ps, const Tier& t, int worker, int n
   extra_json += std::string(extra_json.empty() ? "" : ",") + "\"x_small_codes\":" + std::to_string(cfgs.size()) + ",\"x_patterns_this_worker\":" + std::to_string(patterns);
 }
 
+// Scenario phase: a fixed number of cases of every rare scenario class that applies to the property, forced rather than
+// drawn (the random phase draws them with small probabilities, so whether a given run contains one would depend on the seed).
+template <class F>
+inline bool scenario_cases(const PropSpec& ps, const Tier& t, int worker, int nworkers, uint64_t seed, F one, Stats* st_out) {
+  std::vector<std::pair<int, uint32_t>> plan;   // scenario, cases over all workers (quick); thorough runs four times as many
+  bool ldpc = (ps.go.codecs & GC_LDPC) != 0;
+  switch (ps.kind) {
+    case 0: case 2:
+      if (ldpc && ps.go.api_mode != 2) { plan.push_back({SC_DEEP0, 16}); plan.push_back({SC_DEEP1, 16}); plan.push_back({SC_DEEP2, 8}); }
+      if (ldpc) { plan.push_back({SC_WIDEROW, 64}); plan.push_back({SC_WIDEROW_BIG, 48}); plan.push_back({SC_NOISY, 16}); }
+      plan.push_back({SC_CROWD, 32}); plan.push_back({SC_NESTED, 96}); plan.push_back({SC_RETRY, 96}); plan.push_back({SC_SIBLING, 96}); plan.push_back({SC_MULTI, 64});
+      break;
+    case 1: plan.push_back({SC_ENCPAIR, 192}); plan.push_back({SC_ENCCROWD, 48}); if (ldpc) { plan.push_back({SC_WIDEROW, 48}); plan.push_back({SC_WIDEROW_BIG, 32}); } break;
+    case 3: plan.push_back({SC_TWIN, 96}); plan.push_back({SC_RETRY, 128}); plan.push_back({SC_NESTED, 96}); plan.push_back({SC_CROWD, 32}); plan.push_back({SC_NOISY, 32}); plan.push_back({SC_SIBLING, 128}); break;
+    case 4: plan.push_back({SC_C05BIG, 16}); plan.push_back({SC_C05VERB, 256}); plan.push_back({SC_WIDEROW, 32}); plan.push_back({SC_WIDEROW_BIG, 16}); break;
+    case 5: plan.push_back({SC_LN256, 128}); plan.push_back({SC_LN65536, 16}); break;
+    default: break;
+  }
+  uint64_t idx = 0;
+  for (auto& pl : plan) {
+    uint32_t cnt = pl.second * (t.thorough ? 4 : 1);
+    for (uint32_t i = 0; i < cnt; i++) {
+      if ((idx++ % (uint64_t)nworkers) != (uint64_t)worker) continue;
+      uint64_t x = mix2(mix2(seed, (uint64_t)pl.first), i);
+      std::vector<uint32_t> choices(400); for (auto& c : choices) c = (uint32_t)splitmix(x);
+      Chooser ch(choices.data(), choices.size());
+      g_force = pl.first;
+      History h = generate(ps, ch);
+      g_force = SC_NONE;
+      if (st_out) st_out->counters[std::string("scenario_cases:") + scenario_names[pl.first]]++;
+      if (!one(h)) return false;
+    }
+  }
+  if (st_out && !plan.empty()) { std::string l; for (auto& pl : plan) l += std::string(l.empty() ? "" : ", ") + scenario_names[pl.first] + " x" + std::to_string(pl.second * (t.thorough ? 4 : 1)); st_out->subspaces.push_back("scenario phase (every rare scenario class forced a fixed number of times, parameters generated): " + l); }
+  return true;
+}
+
 template <class F>
 inline void enumerate(const std::string& prop, const Tier& t, int worker, int nworkers, uint64_t seed, F one, std::string& extra_json, const PropSpec* psp = nullptr, Stats* st_out = nullptr) {
+  if (psp && !scenario_cases(*psp, t, worker, nworkers, seed, one, st_out)) return;
   if (prop == "C06") {
     // generator identity, complete: the generator row of ESI j does not depend on n, so n = maximum covers
     // every accepted (k, n); identity payload exposes every coefficient
